@@ -233,3 +233,6 @@ def run(ctx):
     if not getattr(ctx, "nested", False):
         from rules import C02 as _c02
         _c02.run(shared.Proxy(ctx, ("C02-e",), "C03-type"))
+        # a DATA frame cut short by the end of the stream is not a complete message: the body reader reports `end of data` only at
+        # a frame boundary (C02-d)
+        _c02.run(shared.Proxy(ctx, ("C02-d",), "C03-eob", only=("FrameStream::poll_data",)))
